@@ -863,6 +863,8 @@ inline void comm::handle_next_receive(MPI_Status                   status,
   ASSERT_MPI(MPI_Get_count(&status, MPI_BYTE, &count));
   stats.irecv(status.MPI_SOURCE, count);
   cereal::YGMInputArchive iarchive(buffer.get(), count);
+  const bool was_in_process_receive_queue = m_in_process_receive_queue;
+  m_in_process_receive_queue              = true;
   while (!iarchive.empty()) {
     if (config.routing != detail::routing_type::NONE) {
       header_t h;
@@ -901,6 +903,7 @@ inline void comm::handle_next_receive(MPI_Status                   status,
       stats.rpc_execute();
     }
   }
+  m_in_process_receive_queue = was_in_process_receive_queue;
   post_new_irecv(buffer);
   flush_to_capacity();
 }
